@@ -129,6 +129,11 @@ class PhaseField(_Simu):
             self.ProblemTypes.elastic,
         )
 
+    def _Init_internal_variables(self) -> None:
+        # the history field is stored per element and Gauss point of the previous mesh
+        self.__psiP_e_pg = np.empty(0, dtype=float)
+        self.__old_psiP_e_pg = np.empty(0, dtype=float)
+
     def Results_nodeFields_elementFields(
         self, details=False
     ) -> tuple[list[str], list[str]]:
